@@ -662,6 +662,14 @@ def check(case):
         for which, (xrc, xp, xu) in runs:
             if xrc != 0 or not (mp.isfinite(xp) and xp > 0):
                 continue
+            if which != 'mp' and xp >= 2.2250738585072014e-308 and \
+                    xp / max(a['pl'], a['pr']) < 1e-290:
+                # the double evaluation of the pressure function forms
+                # p*/p_k: next to the bottom of the double range that ratio
+                # is a denormal with a few significant bits, and the
+                # rounding model of the bound below does not hold
+                labels.append('residual_skipped:ratio_near_underflow')
+                continue
             fl, fdl = toro_f(xp, a['rhol'], a['pl'], a['gamma'])
             fr, fdr = toro_f(xp, a['rhor'], a['pr'], a['gamma'])
             resid = abs(fl + fr + (mp.mpf(a['ur']) - mp.mpf(a['ul'])))
